@@ -166,6 +166,21 @@ ADDED6 = {   # round 6
  "C18": "; long multi-line inputs (several buffer refills) under both code pages and four delivery sizes",
  "C20": "; what a call sees through a schema (no _node for the plain variant, an argument named _node)",
 }
+ADDED7 = {   # round 7
+ "C02": "; every case also rendered with field names made of the naming scheme's own separator / escape characters",
+ "C03": "; declarations nested 1..11 deep (fixedlength2, csv2, edi)",
+ "C04": "; StreamSelect.tla: an attribute predicate in front of the last predicate (decided when the element opens)",
+ "C05": "; EDI with the line feed as segment delimiter, undeclared units of non-ASCII characters only",
+ "C06": "; csv2 record nested below a column-bearing parent with default column indexes",
+ "C10": "; pools with a plain non-target parent record and several child record types",
+ "C11": "; trees streamed record by record (records with their own namespace declarations) vs the reference DOM of the partial document",
+ "C13": "; items with a target filter next to lines the csv readers reject",
+ "C15": "; two transforms open at once in one goroutine with alternating Reads",
+ "C16": "; seven error values of real sources (io.ErrUnexpectedEOF, closed pipe, timeout, cancellation, ...)",
+ "C20": "; the same call on the record and below an ancestor-anchored object through a schema",
+}
+for _p, _t in ADDED7.items():
+    CHECKS[_p]["technique"] += _t
 for _p, _t in ADDED6.items():
     CHECKS[_p]["technique"] += _t
 for _p, (_t, _x) in ADDED.items():
